@@ -1,7 +1,11 @@
 package c02
 
 import (
+	"fmt"
 	"os"
+	"time"
+
+	bo "github.com/benoitkugler/webrender/html/boxes"
 
 	"wrverif/mp"
 	"wrverif/render"
@@ -23,12 +27,33 @@ func Run(tier string, seed uint64, modelPath, repo string, out *res.Result) erro
 	}
 	out.Rule = "class F: documents generated from an abstract tree (html>body>1-5 blocks, nesting<=4, paragraphs of 1-8 <br>-separated unique 3-char tokens, " +
 		"font 20px/20px Ahem, page content heights 40-215px, break-before/after (auto avoid page left right recto verso), break-inside, orphans/widows 1-4, " +
-		"margins (incl. negative, quarter px), padding, borders); general: the same plus floats, abs-pos, fixed, inline-blocks, tables with thead/tfoot; " +
+		"margins (incl. negative, quarter px), padding, borders); general: the same plus floats, floats glued into a line, abs-pos, fixed, inline-blocks, tables with thead/tfoot, ::first-letter (inline / floated, punctuation, nested spans); " +
 		"non-trivial = the real layout produced >= 2 pages; distinct by full HTML text"
 	render.Quiet()
 	fonts, err := render.NewFonts(repo)
 	if err != nil {
 		return err
+	}
+	if probe := os.Getenv("C02_PROBE"); probe != "" { // debugging aid: lay out one hand-written document
+		var pages []*bo.PageBox
+		o := render.Guard(20*time.Second, func() { pages, _, _ = render.LayoutOnly(probe, fonts, render.Opts{}) })
+		fmt.Fprintln(os.Stderr, "PROBE", o.Panic, o.Timeout)
+		for i, p := range pages {
+			var ts []string
+			for _, d := range bo.DescendantsPlaceholders(p, true) {
+				if tb, ok := d.(*bo.TextBox); ok {
+					ts = append(ts, fmt.Sprintf("%q@%v,%v", tb.TextS(), tb.PositionX, tb.PositionY))
+				}
+			}
+			fmt.Fprintln(os.Stderr, " page", i, ts)
+		}
+		return nil
+	}
+	if dir := os.Getenv("C02_DUMP_CORPUS"); dir != "" { // maintenance aid: write the corpus documents' HTML
+		for i, d := range CorpusGeneral() {
+			os.WriteFile(fmt.Sprintf("%s/%d.html", dir, i), []byte(d.HTML), 0o644)
+		}
+		return nil
 	}
 	rF, rG := r.Sub(), r.Sub()
 	only := os.Getenv("C02_ONLY") // debugging aid: "classf" | "general"
